@@ -152,3 +152,32 @@ class Differ:
             d["expr"] = show_shape(shape)
             d["context"] = ctxname
         return d
+
+
+def merge_programs(rnd):
+    """IR programs that trigger _merge_memzero / _merge_load (calldataload, mload->mcopy incl. the overlap
+    guard) / _remove_empty_seqs / if-on-literal / shift-by-zero in optimizer._optimize."""
+    progs = []
+    dirty = [["mstore", 32 * i, ["add", ["calldataload", 32 * (i % 4)], i]] for i in range(8)]
+    ret = [["return", 0, 256]]
+
+    def P(body):
+        return ["with", "x", ["calldataload", 0], ["with", "y", ["calldataload", 32], ["seq"] + dirty + body + ret]]
+    for start in (0, 32, 64):
+        for n in (1, 2, 3, 4):
+            progs.append(P([["mstore", start + 32 * i, 0] for i in range(n)]))
+            progs.append(P([["mstore", start + 32 * i, ["calldataload", 32 * i]] for i in range(n)]))
+            progs.append(P([["mstore", start, 0], ["calldatacopy", start + 32, "calldatasize", 32 * n]]))
+    for dst in (0, 32, 64, 96, 128):
+        for src in (0, 32, 64, 96):
+            for n in (2, 3):
+                progs.append(P([["mstore", dst + 32 * i, ["mload", src + 32 * i]] for i in range(n)]))
+    progs.append(P([["seq"], ["mstore", 0, 0], ["seq"], "pass", ["mstore", 32, 0], ["seq"]]))
+    progs.append(P([["if", 1, ["mstore", 0, "x"], ["mstore", 0, "y"]], ["if", 0, ["mstore", 32, "x"], ["mstore", 32, "y"]]]))
+    progs.append(P([["mstore", 0, ["shl", 0, "x"]], ["mstore", 32, ["shr", 0, "y"]], ["mstore", 64, ["sar", 0, "x"]]]))
+    progs.append(P([["mstore", 0, ["iszero", 0]], ["mstore", 32, ["iszero", 5]], ["mstore", 64, ["ceil32", 33]],
+                    ["mstore", 96, ["ceil32", -1]]]))
+    progs.append(P([["if", ["eq", "x", "y"], ["mstore", 0, 1], ["mstore", 0, 2]],
+                    ["if", ["iszero", ["lt", "x", 5]], ["mstore", 32, 1], ["mstore", 32, 2]],
+                    ["assert", ["ne", "x", 3]], ["mstore", 64, ["iszero", ["ne", "x", "y"]]]]))
+    return progs
